@@ -78,6 +78,37 @@ def gen_readstorms(rng, n):
     return out
 
 
+def gen_writestorms(rng, n):
+    """several goroutines appending large blobs to TWO volumes of one server at the same time (odd keys live in one
+    volume, even keys in the other), directly on the Store (tight loops) and over HTTP; every goroutine owns one key
+    and reads it back after each write: it must get the blob it has just written, intact (encode buffers shared
+    between concurrent appends to different volumes would show here). A third of the storms also share keys."""
+    out = []
+    for i in range(n):
+        procs = rng.choice([4, 6, 6])
+        http = i % 3 == 0
+        w, rd = ("write", "read") if http else ("swrite", "sread")
+        shared = i % 3 == 1
+        plan = []
+        for p in range(procs):
+            ops = []
+            for _i in range(rng.randint(4, 6) if http or shared else rng.randint(14, 20)):
+                k = 1 + (p + _i) % 2 if shared else p + 1
+                ops.append({"op": w, "k": k, "c": "c1", "d": rng.choice(["H", "I", "H", "I", "L", "M"]), "m": "m0"})
+                ops.append({"op": rd, "k": k, "c": "c1", "d": "", "m": ""})
+            plan.append(ops)
+        if not http and not shared:
+            # long tight loops, recorded compactly: one burst per goroutine on its own key
+            plan = [[{"op": "sburst", "k": p + 1, "c": "c1", "d": "", "m": "m0",
+                      "ds": [rng.choice(["H", "I", "H", "I", "L", "M"]) for _ in range(rng.randint(120, 180))]}]
+                    for p in range(procs)]
+        keys = [1, 2] if shared else list(range(1, procs + 1))
+        out.append({"ev": "reset", "vttl": "", "procs": procs, "keys": keys, "cookies": ["c1"], "vols": 2,
+                    "pre": [{"op": w, "k": k, "c": "c1", "d": "L" if k % 2 else "M", "m": "m0"} for k in keys[:2]],
+                    "plan": plan})
+    return out
+
+
 def nontrivial(lines):
     # at least two processes had overlapping operations on the same key, one of them a write or delete
     open_ops = {}
@@ -129,6 +160,8 @@ def run(ctx):
                     f.write(json.dumps(r) + "\n")
                 for r in gen_storeplans(rng, n):
                     f.write(json.dumps(r) + "\n")
+                for r in gen_writestorms(rng, max(12, n // 16)):
+                    f.write(json.dumps(r) + "\n")
         # the race detector's reports are recorded, not judged (C38 does not state race freedom; the pinned tree
         # has a read/write race on Volume.Version() in every run): keep the driver's exit code at 0
         trace = ctx.drive(binp, ["--script", script, "--mode", mode], name=mode, timeout=3000,
@@ -147,7 +180,8 @@ def run(ctx):
                 "cookie) against one volume of a real volume server over HTTP, through the immediate write path and through the "
                 "batched (fsync while stopping) path, followed by sequential reads of every (key, cookie); call/ret logged under one "
                 "mutex; TLC searches for linearization points; non-trivial = two operations on the same key overlapped in real "
-                "time and one of them was a write or delete; distinct by hash")
+                "time and one of them was a write or delete; distinct by hash; plus read storms over equal-size blobs and write storms "
+                "of 4-6 goroutines appending 720 kB / 3 kB blobs to two volumes of the server at the same time")
     ctx.assumptions += ["payloads are non-empty and carry no metadata (the listed C01 findings are avoided, not admitted)",
                         "real-time order is the order of call/ret events taken under the driver's mutex",
                         "thorough tier builds the driver (and the linked SeaweedFS code) with -race; a DATA RACE report is "
